@@ -520,3 +520,86 @@ func ReproQueueConstructor() (bool, string) {
 	}
 	return false, "Queue.MakeFromArray with 20 values returns"
 }
+
+// ---- exhaustive depth-first exploration of tiny programs (stateless) ----
+
+// TinyPrograms are explored completely: every schedule at hook granularity.
+var TinyPrograms = []QProgram{
+	{Cap: 1, Producers: []int{1}, Consumers: []int{-1}, Closer: true},
+	{Cap: 1, Producers: []int{2}, Consumers: []int{-1}, Closer: true},
+	{Cap: 1, Producers: []int{1, 1}, Consumers: []int{2}},
+	{Cap: 1, Producers: []int{1}, Consumers: []int{-1}, Closer: true, RemoveAll: true},
+	{Cap: 2, Producers: []int{2}, Consumers: []int{1, 1}},
+	{Cap: 1, Producers: []int{1}, Consumers: []int{-1, -1}, Closer: true},
+	{Cap: 1, Producers: []int{2}, Consumers: []int{-1}, Closer: true, RemoveAll: true},
+	{Cap: 2, Producers: []int{1, 1}, Consumers: []int{-1}, Closer: true},
+	{Cap: 1, Producers: []int{1}, Consumers: []int{1}, Observers: 1},
+	{Cap: 1, Producers: []int{1, 1}, Consumers: []int{-1}, Closer: true, RemoveAll: true},
+}
+
+// RunM1Exhaustive explores all schedules of TinyPrograms[idx] depth-first (up
+// to a budget) and applies every oracle of C04/C05 to each.  prop selects what
+// is reported.
+func RunM1Exhaustive(c *core.Ctx, idx int, prop string) {
+	p := TinyPrograms[idx%len(TinyPrograms)]
+	budget := core.Tiered(c.Tier, 4000, 400000)
+	var forced []int
+	explored := 0
+	complete := false
+	for explored < budget {
+		res := RunQProgramForced(core.NewRng(1234, uint64(idx)), p, forced, true) // a fixed stream: the program itself must be the same in every run
+		explored++
+		cs := map[string]any{"program": p.String(), "history": res.Hist.Strings()}
+		if res.Sched.Unrepresentable() {
+			c.Cover("m1.abandoned(committed-goroutine-ready-on-a-replaced-channel)")
+		} else if !reportM1(c, res.Sched, res.Panic, cs, true) {
+			return
+		} else if prop == "C04" {
+			for _, f := range CheckQueueHistory(res.Hist, p.Cap, res.Final, res.FinalSize, res.FinalEmp) {
+				if strings.HasPrefix(f.Sig, "inconclusive/") {
+					c.Inconclusive(f.Msg)
+					continue
+				}
+				cs["final"] = res.Final
+				c.Violation(f.Sig, f.Msg, cs)
+				return
+			}
+		} else {
+			for _, o := range res.Hist.Ops {
+				if o.Ret == 0 {
+					c.Violation("m1/operation-never-returned", "operation "+o.String()+" never returned although the schedule ended", cs)
+					return
+				}
+			}
+			if len(res.Final) != 0 && p.Closer {
+				c.Violation("m1/values-not-consumed", fmt.Sprintf("%v left in the queue after the program terminated", res.Final), cs)
+				return
+			}
+		}
+		c.Distinct(core.Mix(core.HashStr(p.String()), traceHash(res.Sched)))
+		// backtrack: the last decision that still has an untried alternative
+		ch := res.Sched.Choices
+		k := len(ch) - 1
+		for k >= 0 && ch[k][1]+1 >= ch[k][0] {
+			k--
+		}
+		if k < 0 {
+			complete = true
+			break
+		}
+		forced = forced[:0]
+		for i := 0; i < k; i++ {
+			forced = append(forced, ch[i][1])
+		}
+		forced = append(forced, ch[k][1]+1)
+	}
+	c.CoverN("m1.exhaustive.schedules", explored)
+	if complete {
+		c.Cover("m1.exhaustive.programs-explored-completely")
+	} else {
+		c.Cover("m1.exhaustive.programs-cut-at-the-budget")
+	}
+	if c.WantSample("m1-exhaustive") {
+		c.Sample("m1-exhaustive", map[string]any{"program": p.String(), "schedules_explored": explored, "complete": complete})
+	}
+}
